@@ -159,6 +159,25 @@ def serveTimedOnce (deadline : Nat) : Nat → List Nat → Nat
   | _, [] => 0
   | now, lat :: rest => if now + lat ≤ deadline then 1 + serveTimedOnce deadline (now + lat) rest else 0
 
+/-- The serving loop on a connection that is kept busy: before every `handle` both deadlines (read AND
+write: `SetDeadline`) are set to now + timeout; the next request arrives after an idle `gap`, serving
+it takes `lat`; the request can be read iff it arrives by the deadline and the response written iff
+that is by the same deadline. Returns how many exchanges are served. -/
+def serveBusy (timeout : Nat) : Nat → List (Nat × Nat) → Nat
+  | _, [] => 0
+  | now, (gap, lat) :: rest =>
+    let deadline := now + timeout
+    if now + gap + lat ≤ deadline then 1 + serveBusy timeout (now + gap + lat) rest else 0
+
+/-- The same loop when only the READ deadline is re-armed and the write deadline is the one set when
+the connection was accepted (`accepted + timeout`). -/
+def serveBusyReadOnly (timeout writeDeadline : Nat) : Nat → List (Nat × Nat) → Nat
+  | _, [] => 0
+  | now, (gap, lat) :: rest =>
+    if now + gap ≤ now + timeout && now + gap + lat ≤ writeDeadline then
+      1 + serveBusyReadOnly timeout writeDeadline (now + gap + lat) rest
+    else 0
+
 /-! ### The per-exchange context flags -/
 
 /-- The three flags of a `martian.Context` and the public calls that set them (`context.go`): each call
